@@ -63,7 +63,7 @@ CLAIMED.update({
  'C18': dict(section='8/C18', technique=ITS_TECH, note=ITS_NOTE + ' Genuine defects F-C18-1 and F-C18-2 repaired by fix: commits.',
    text='Theorems c18_inbound_two_step, c18_executed_not_approved, c18_token_never_replaced, c18_no_reissue, c18_zero_supply_no_minter, c18_service_minter_refused, c18_mintership_leaves_service, c18_handover_keeps_minter_bit, c18_no_minter_no_mint. Every operation / history (Proofs/TMToken.v, Proofs/ItsTokens.v): c18_endpoints_keep_token, c18_token_forever_step, c18_token_forever (the recorded token survives all 25 operation kinds; hypothesis: deployment addresses are fresh).'),
  'C19': dict(section='8/C19', technique=ITS_TECH, note=ITS_NOTE,
-   text='Theorems c19_approve, c19_minter_check, c19_revoke, c19_deploy (approval of exactly that tuple and hash by the current minter, consumed; no destination minter without a local minter; service never minter), c19_single_use, c19_key_preimage_inj. World level (Proofs/ItsApprovals.v): c19_approvals_frame and c19_approval_origin (a non-empty approval is only ever written by the approve endpoint called by a current minter, under exactly its key and hash).'),
+   text='Theorems c19_approve, c19_minter_check, c19_revoke, c19_deploy (approval of exactly that tuple and hash by the current minter, consumed; no destination minter without a local minter; service never minter), c19_single_use, c19_key_preimage_inj. World level (Proofs/ItsApprovals.v): c19_approvals_frame and c19_approval_origin (a non-empty approval is only ever written by the approve endpoint called by a current minter, under exactly its key and hash). Whole histories (Proofs/ItsApprovalCount.v): c19_approval_step, c19_approval_history, c19_uses_bounded_by_approvals (for every history, key and hash h: successful deployments naming h under the key <= successful approvals of exactly (key, h)); c19_history_nonvacuous.'),
  'C20': dict(section='8/C20', technique=ITS_TECH, note=ITS_NOTE + ' Genuine defects F-C20-1 and F-C20-2 repaired by a fix: commit.',
    text='Theorems c20_paused_frame (every gated endpoint leaves the world unchanged while paused), c20_pause_owner_only, c20_unpause_restores, c20_trusted_owner_only, c20_remove_trusted_owner_only, c20_flow_limits_operator_only; the endpoint table and the list of pause-gated functions are regenerated from the sources and pinned. World level (Proofs/ItsRoles.v, Proofs/ItsConfig.v): c20_roles_frame, c20_operator_gain (the operator role is gained only by transfer from / accepted proposal of a holder), c20_config_frame, c20_pause_flag_owner_only.'),
 })
